@@ -137,6 +137,29 @@ def classes():
         def observation(self, state, input, t=None):
             return state
 
+    def _row(name, vec):
+        if vec:
+            return property(lambda self: None if getattr(self, '_' + name) is None else getattr(self, '_' + name)[..., self._t % self.N, :])
+        return property(lambda self: getattr(self, '_' + name)[..., self._t % self.N, :, :])
+
+    def partial_ltv(frozen):
+        """LTV subclass that overrides only the properties NOT in `frozen` (a time-varying system whose A, or B, or c1 ...
+        is constant keeps the inherited LTI property and is given the constant matrix): one class per subset"""
+        key = 'TabLTV_f' + ''.join(sorted(frozen))
+        if key not in _CLS:
+            def __init__(self, A, B, C, D, c1, N):
+                pp.module.LTV.__init__(self, A, B, C, D, c1, None)
+                self.N = N
+            body = dict(__init__=__init__, __module__=__name__)
+            for nm in ('A', 'B', 'C', 'D', 'c1'):
+                if nm not in frozen:
+                    body[nm] = _row(nm, nm == 'c1')
+            k = type(key, (pp.module.LTV,), body)
+            k.__qualname__ = key
+            globals()[key] = k
+            _CLS[key] = k
+        return _CLS[key]
+    _CLS['partial_ltv'] = partial_ltv
     for k in (TabLTV, Pend, Cubic):        # module-level names: the system objects can be pickled / torch.save()d
         k.__qualname__ = k.__name__
         globals()[k.__name__] = k
@@ -196,6 +219,8 @@ def cfg_text(P, S=None):
         out.append('system object = %s twin of an object called %d time(s) before%s' % (tw['how'], tw.get('pre', 0), ', original used in between' if tw.get('inter') else ''))
     if P.get('grad'):
         out.append('system tensors requiring grad: %s' % ','.join(P['grad']))
+    if P.get('frozen'):
+        out.append('LTV subclass overriding only the properties other than %s (those are constant and inherited)' % ','.join(P['frozen']))
     gr = (S or {}).get('grad')
     if gr:
         out.append('requires_grad on %s, call under %s' % (','.join(n for n in ('x0', 'u', 'Q', 'p') if gr.get(n)) or 'nothing', gr.get('mode', 'grad')))
@@ -231,6 +256,13 @@ def build_system(P, lay=None, held=None):
         nb, N = A.shape[0], A.shape[1]
         C = torch.eye(ns, dtype=torch.float64).repeat(nb, N, 1, 1)
         D = torch.zeros(nb, N, ns, nc, dtype=torch.float64)
+        fr = P.get('frozen')
+        if fr:
+            # the rows of a frozen table are all equal (gen_general): the object gets the constant matrix and inherits LTI's property
+            A, B, C, D = (M[:, 0] if n in fr else M for n, M in (('A', A), ('B', B), ('C', C), ('D', D)))
+            if c1 is not None and 'c1' in fr:
+                c1 = c1[:, 0]
+            return c['partial_ltv'](fr)(A, B, C, D, c1, N), (nb, ns, nc)
         return c['TabLTV'](A, B, C, D, c1, N), (nb, ns, nc)
     tw = P.get('twin')
     if not tw:
@@ -605,7 +637,15 @@ def run_session(case, upto=None):
     gradc = case.get('gradc') or []
     set_grad(held['Q'][0], 'Q' in gradc), set_grad(held['p'][0], 'p' in gradc)
     twin_at = case.get('twin_at')            # dict(step, how): the SOLVER object is replaced by a twin of itself before that step
-    P = dict(case['P'], A=held['A'][0].tolist(), B=held['B'][0].tolist(), c1=None if 'c1' not in held else held['c1'][0].tolist())
+    def table_of(name):
+        # a matrix that the LTV subclass does not override (P['frozen']) is the constant row 0 at every time
+        tt = held[name][0]
+        if case['P'].get('frozen') and name in case['P']['frozen']:
+            full = 3 if name == 'c1' else 4
+            tt = tt[:, 0] if tt.dim() == full else tt
+            tt = tt.unsqueeze(1).expand(tt.shape[0], case['P']['N'], *tt.shape[1:])
+        return tt.tolist()
+    P = dict(case['P'], A=table_of('A'), B=table_of('B'), c1=None if 'c1' not in held else table_of('c1'))
     Qv, pv = held['Q'][0].tolist(), held['p'][0].tolist()
     if api == 'mpc':
         obj = pp.module.MPC(system, held['Q'][0], held['p'][0], T, stepper=ReduceToBason(steps=case.get('mpc_steps', 3)))
@@ -845,6 +885,16 @@ def gen_general(rng, g, sizes=None, kind=None):
         B = [[mkB() for _ in range(N)] for _ in range(nb)]
         c1 = [[mkc() for _ in range(N)] for _ in range(nb)] if has_c else None
     P = dict(kind=kind, N=N, A=A, B=B, c1=c1, t0=0)
+    if kind == 'ltv' and N > 1:
+        # time-varying systems of which only SOME matrices vary (the others keep the inherited constant property); chosen from
+        # the sizes, without consuming the random stream
+        pick = (7 * nb + 5 * ns + 3 * nc + T + N) % 8
+        fr = {0: None, 1: ['A'], 2: ['B'], 3: None, 4: ['A', 'C', 'D'], 5: ['B', 'c1'], 6: ['C', 'D'], 7: ['A', 'c1']}[pick]
+        if fr:
+            for nm in ('A', 'B', 'c1'):
+                if nm in fr and P[nm] is not None:
+                    P[nm] = [[rows[0] for _ in rows] for rows in P[nm]]
+            P['frozen'] = fr
     return P, (nb, ns, nc, T)
 
 
@@ -1148,6 +1198,7 @@ def run(ctx):
         if k % 5 == 2:
             P['grad'] = [n for n in ('A', 'B', 'c1') if rng.random() < 0.6] or ['A']
         ctx.count('general:system-object:%s' % (P['twin']['how'] + '-twin' if P.get('twin') else 'built'))
+        ctx.count('general:ltv-overrides:%s' % ('-' if P['kind'] != 'ltv' else 'all' if not P.get('frozen') else 'all-but-' + '+'.join(P['frozen'])))
         try:
             system = build_system(P)
         except Exception as e:      # noqa
